@@ -15,6 +15,7 @@ import LucidProofs.C01
 import LucidProofs.C03b
 import LucidProofs.C11b
 import LucidProofs.Lemmas.UnicodeSrc
+import LucidProofs.Lemmas.UnicodeSrc2
 
 namespace Lucid
 open Gen
@@ -59,14 +60,28 @@ theorem C15_record_stdLangs {name : String} {T : LangTables} (hT : (name, T) ∈
 
 /-- half-length stemmer: bounded in every environment that uses it -/
 theorem toyStem_bounded_std (T : LangTables) : StemBounded (stdEnv T toyStem) := by
-  intro w hw
+  intro w hw _
   have : 0 < w.length := List.length_pos_iff.2 hw
   simp only [stdEnv, Prog.env, toyStem]
   omega
 
+theorem foldClosed_of_srcLangs {name : String} {T : LangTables} (h : (name, T) ∈ srcLangs) : FoldClosed T.reduce = true := by
+  have hall : srcLangs.all (fun p => FoldClosed p.2.reduce) = true := by decide
+  exact List.all_eq_true.1 hall _ h
+
+/-- the (restricted) stem hypothesis on the real Unicode tables for every generated language, with the toy stemmer:
+    the table-closure and `LowerKeyFree` parts are theorems about the generated data -/
+theorem toyStemHyp_std {name : String} {T : LangTables} (hT : (name, T) ∈ srcLangs) : StemHyp (stdEnv T toyStem) :=
+  fun _ => ⟨foldClosed_of_srcLangs hT, lowerKeyFree_std hT toyStem, toyStem_bounded_std T⟩
+
+/-- for ANY stem oracle: on the real tables the stem hypothesis reduces to the bound on reduce-stable words -/
+theorem stemHyp_std_of_bounded {name : String} {T : LangTables} (hT : (name, T) ∈ srcLangs) (stem : List Nat → Nat)
+    (hB : StemBounded (stdEnv T stem)) : StemHyp (stdEnv T stem) :=
+  fun _ => ⟨foldClosed_of_srcLangs hT, lowerKeyFree_std hT stem, hB⟩
+
 /-- non-vacuity: the hypotheses are met in German with a bounded stemmer, and in `lang_none` with any function -/
 example (s : List Nat) : TokInv (stdEnv lang_de toyStem) true s (tokenizeQuery srcProg (stdEnv lang_de toyStem) s) :=
-  C15_query_std lang_de tablesOK_de toyStem (fun _ => toyStem_bounded_std _) s
+  C15_query_std lang_de tablesOK_de toyStem (toyStemHyp_std (name := "de") (by simp [srcLangs])) s
 
 example (f : List Nat → Nat) (s : List Nat) :
     TokInv (stdEnv lang_none f) false s (tokenizeRecord srcProg (stdEnv lang_none f) s) :=
@@ -103,7 +118,7 @@ theorem C01_api_safe_stdLangs (S : Sorter) (hS : SorterOK S) {name : String} {T 
 /-- non-vacuity: every hypothesis is met in French with the insertion sorter and the half-length stemmer -/
 example (ops : List ApiOp) :
     apiRunSafe C13Example.exSorter srcProg (stdEnv lang_fr toyStem) (Store.new srcConsts) ops = true :=
-  C01_api_safe_std _ C13Example.exSorter_ok lang_fr tablesOK_fr toyStem (fun _ => toyStem_bounded_std _) ops
+  C01_api_safe_std _ C13Example.exSorter_ok lang_fr tablesOK_fr toyStem (toyStemHyp_std (name := "fr") (by simp [srcLangs])) ops
 
 /-! ### C03, C04, C13 on tokenised texts -/
 
@@ -228,7 +243,7 @@ example : ∃ res ∈ ((Store.new srcConsts).run C13Example.exSorter srcConsts s
     simp only [exOpsStd, List.mem_cons, StoreOp.add.injEq, List.not_mem_nil, or_false] at hm
     exact ⟨_, hm.2.1⟩
   obtain ⟨res, h1, h2, _⟩ := C13_whole_title_typed_std C13Example.exSorter C13Example.exSorter_ok lang_de toyStem
-    tablesOK_de (fun _ => toyStem_bounded_std _) exOpsStd hops (by decide +kernel) 0
+    tablesOK_de (toyStemHyp_std (name := "de") (by simp [srcLangs])) exOpsStd hops (by decide +kernel) 0
     { ix := 0, id := 42,
       title := tokenizeRecord srcProg (stdEnv lang_de toyStem) [220, 98, 101, 114, 32, 117, 110, 115], rating := 7 }
     (by decide +kernel) [220, 98, 101, 114, 32, 117, 110, 115] rfl (by decide +kernel)
